@@ -362,6 +362,8 @@ class Repo:
                             factory = kw.arg == "default_factory"
                 ann = ast.unparse(st.annotation)
                 if ann.startswith("ClassVar"):
+                    if st.value is not None:
+                        ci.class_assigns[st.target.id] = st.value
                     continue
                 ci.own_fields.append(
                     FieldInfo(st.target.id, init, has_default, node.name, default, factory, ann)
